@@ -44,6 +44,16 @@ def _gen_inputs(ctx, max_o, max_s, n_rand, rand_o, rand_s):
     for _ in range(n_rand):
         S = R.rand_shape(rng, rng.randint(1, rand_s))
         cases.append({"S": S, "O": R.rand_otree(rng, rng.randint(1, rand_o), R.shape_leaves(S))})
+    # large species trees (deep caterpillars included): long Euler tours, queries over ranges of every length
+    for _ in range(max(60, n_rand // 8)):
+        ns = rng.randint(10, 28)
+        if rng.random() < 0.4:
+            S = 0
+            for _k in range(ns - 1):
+                S = [S, 0] if rng.random() < 0.5 else [0, S]
+        else:
+            S = R.rand_shape(rng, ns)
+        cases.append({"S": S, "O": R.rand_otree(rng, rng.randint(2, 12), R.shape_leaves(S))})
     return cases
 
 
@@ -116,7 +126,7 @@ def batches(ctx):
     dcases = []
     for b in rng.sample(base, min(len(base), 700 if ctx.quick() else 6000)):
         sl = R.shape_leaves(b["S"])
-        spname = {p: letters[i] for i, p in enumerate(sl)}
+        spname = {p: (letters[i] if i < len(letters) else f"Z{i}") for i, p in enumerate(sl)}
         k = [0]
 
         def onw(o):
